@@ -73,6 +73,7 @@ structure Run where
   del : List (Id × String) := []
   cancel : CancelAt := .never
   watchErr : Option (Nat × Nat) := none
+  watchErrMut : Option Nat := none   -- the watcher reports a fatal error while mutating request k is in flight
   envDel : List Id := []
   initial : List Id := []        -- objects whose current status the watcher reports before its sync event
 deriving Repr, Inhabited
@@ -221,7 +222,13 @@ def snapOf (c : Cluster) : Snap := { inv := c.inv, objs := c.objs }
 def St.mutReq (s : St) (verb : String) (id : Id) (dry : Bool) (precond prop : String)
     (effect : Cluster → Cluster × String) : St × String :=
   let k := s.mutIdx
-  let s := { s with mutIdx := k + 1, cancelled := s.cancelled || decide (s.run.cancel = CancelAt.mut k) }
+  -- in flight: first the caller's cancellation (if scheduled here), then the watcher's fatal error (if scheduled here); the
+  -- runner ignores status events, errors included, once it is aborting (dry-runs use the library's blind watcher, which
+  -- never fails)
+  let c' := s.cancelled || decide (s.run.cancel = CancelAt.mut k)
+  let s := { s with mutIdx := k + 1, cancelled := c',
+                    watcherFailed := s.watcherFailed ||
+                      (decide (s.run.watchErrMut = some k) && !c' && decide (s.run.opts.dry = Dry.none)) }
   if k ∈ s.run.failMut then
     ({ s with muts := ⟨verb, id, dry, precond, prop, "error", true, s.events.length, snapOf s.cl⟩ :: s.muts }, "error")
   else
@@ -883,8 +890,9 @@ def runTasks (pruneObjs : List Live) (localNs : List String) : St → List Task 
     match err with
     | some k => s3.emit (.error k)
     | none =>
-      if s3.watcherFailed then s3.emit (.error "watcher")
-      else if s3.cancelled then s3.emit (.error "canceled")
+      -- a cancellation that comes after a watcher error replaces the reason; one that came before makes the runner ignore it
+      if s3.cancelled then s3.emit (.error "canceled")
+      else if s3.watcherFailed then s3.emit (.error "watcher")
       else runTasks pruneObjs localNs s3 ts
 
 /-- `GetPruneObjs`: the stored ids not in the apply set that still exist; `none` = read error -/
@@ -948,5 +956,28 @@ def runOne (c : Cluster) (run : Run) : St :=
       let s := initialStatuses (prepare r2.1 plan pruneObjs)
       if run.cancel = .beforeSync && run.opts.dry = .none then s.emit (.error "canceled")
       else runTasks pruneObjs (localNamespaces applyIdsAll) s plan.tasks
+
+/-- the caller's cancellation and the watcher's sync event become ready together (the runner was busy forwarding a status
+event): Go's `select` may take either.  `syncFirst = false`: the cancellation is seen first — nothing is started
+(`CancelAt.beforeSync`).  `syncFirst = true`: the sync event is taken first — the first task is started, the cancellation is
+seen while it runs, it is finished (only wait tasks can be interrupted) and the run ends with the context error. -/
+def runOneAtSync (c : Cluster) (run : Run) (syncFirst : Bool) : St :=
+  if !syncFirst then runOne c { run with cancel := .beforeSync }
+  else
+    let run := { run with cancel := .never }
+    let s0 : St := { cl := run.envDel.foldl (fun c i => c.remove i) c, run := run }
+    let applyMs := if run.destroy then [] else run.objs
+    let applyIdsAll := applyMs.map (·.id)
+    let r1 := getPruneObjs s0 applyIdsAll
+    match r1.2 with
+    | none => r1.1.emit (.error "fault")
+    | some pruneObjs =>
+      let r2 := r1.1.invRead
+      let prev : List Id := match r2.2 with | some (some l) => l | _ => []
+      let plan := buildPlan run applyMs pruneObjs prev r2.2.isNone
+      if !run.opts.skipInvalid && !plan.valErrors.isEmpty then r2.1.emit (.error "other")
+      else
+        let s := initialStatuses (prepare r2.1 plan pruneObjs)
+        runTasks pruneObjs (localNamespaces applyIdsAll) { s with cancelled := run.opts.dry = .none } plan.tasks
 
 end CliUtils.Sys
